@@ -45,6 +45,8 @@ FLAVOURS = {
     "fuzz": ("clang-14", "-O1 -g -fno-omit-frame-pointer -fsanitize=fuzzer-no-link,address,undefined "
              "-fno-sanitize-recover=all", "-fsanitize=fuzzer,address,undefined"),
     "so": ("gcc", "-O2 -g -fPIC -DPIC", ""),
+    # a distribution building with CPPFLAGS=-DNDEBUG: an assert() whose argument has a side effect disappears
+    "ndebug": ("gcc", "-O2 -g -DNDEBUG", ""),
     "so-asan": ("gcc", "-O1 -g -fno-omit-frame-pointer -fPIC -DPIC "
                 "-fsanitize=address,undefined -fno-sanitize-recover=all",
                 "-fsanitize=address,undefined"),
